@@ -47,7 +47,7 @@ def main(argv: list[str]) -> int:
         print(__doc__)
         return 2
     n = int(argv[1]) if len(argv) > 1 else 64
-    props = argv[2].split(",") if len(argv) > 2 else ["C10", "C18"]
+    props = argv[2].split(",") if len(argv) > 2 else ["C10", "C12", "C15", "C17", "C18", "C19"]
     seed = int(os.environ.get("VERIF_SEED", "0"))
     bad = 0
     for prop in props:
